@@ -2,7 +2,7 @@
 # tools/run_all.sh <tier> : run every check once (evidence / replay files go to a scratch directory), print a summary
 tier="${1:-quick}"
 tmp=$(mktemp -d /tmp/runall.XXXXXX)
-for i in 01 02 03 04 05 06 07 08 09 10 11 12 13 14 15 16 17 18 19 20; do
+for i in ${CHECKS:-01 02 03 04 05 06 07 08 09 10 11 12 13 14 15 16 17 18 19 20}; do
   s=$(date +%s)
   VERIF_OUT="$tmp/out" VERIF_EVID="$tmp/evid" /verif/check C$i --tier "$tier" > "$tmp/C$i.log" 2>&1
   rc=$?
